@@ -248,6 +248,16 @@ func verifValidPrefix(s string) bool {
 	return true
 }
 
+func verifSubsequence(sub, s string) bool {
+	i := 0
+	for j := 0; j < len(s) && i < len(sub); j++ {
+		if s[j] == sub[i] {
+			i++
+		}
+	}
+	return i == len(sub)
+}
+
 // verifTrimTail removes a trailing incomplete character of a valid-prefix string.
 func verifTrimTail(s string) string {
 	for i := 0; i < 4 && len(s) > 0 && !utf8.ValidString(s); i++ {
@@ -300,8 +310,14 @@ func verifLoopCase(out *zzverif.Out, limit int, stops []string, script []verifEv
 		if vp {
 			out.L2("prefix-valid-gen", line, fmt.Sprintf("out=%x gen=%x", o, g))
 		} else {
-			out.Count("f20_dropped_bytes")
-			out.L2("prefix-invalid-gen", line, fmt.Sprintf("class=invalid-utf8-bytes-dropped out=%x gen=%x", o, g))
+			// F20: the generated bytes are not valid UTF-8 and flushPending dropped some of them;
+			// anything else (bytes added, reordered) is a different failure
+			class := "other"
+			if verifSubsequence(o, g) {
+				class = "invalid-utf8-bytes-dropped"
+				out.Count("f20_dropped_bytes")
+			}
+			out.L2("prefix-invalid-gen", line, fmt.Sprintf("class=%s out=%x gen=%x", class, o, g))
 		}
 	}
 	if vp && strings.HasPrefix(g, o) {
@@ -346,6 +362,15 @@ func verifLoopCase(out *zzverif.Out, limit int, stops []string, script []verifEv
 	if hasEmpty {
 		out.Count("has_empty_stop")
 		return // "" occurs in every text; the stop clauses say nothing useful
+	}
+	for _, st := range stops {
+		if !utf8.ValidString(st) {
+			// stops reach the runner through encoding/json and are valid UTF-8; a stop that starts
+			// or ends inside a character cannot be honoured together with whole-UTF-8 output.
+			// Such cases are still compared with the model (L1) and checked for the UTF-8 clauses.
+			out.Count("has_invalid_stop")
+			return
+		}
 	}
 	// the cause, from the script alone
 	cause := "limit"
